@@ -145,6 +145,19 @@ pub fn search(rng: &mut Rng, budget: u64, fails: &mut Vec<Failure>) {
                     Ok(Err(_)) => if ok_t { fails.push(Failure { what: "PlainTime (time-only string) rejected".into(), input: time_only.clone(), expected: "accepted".into(), observed: "Err".into() }); },
                 }
             }
+            // a month-day from a full date(-time) string (TemporalMonthDayString ::: AnnotatedMonthDay | AnnotatedDateTime):
+            // its month and day in reference year 1972; Z and over-long fractions are refused like for the other plain types
+            {
+                let t = g.text.clone();
+                match catch_unwind(move || temporal_rs::PlainMonthDay::from_str(&t)) {
+                    Err(_) => fails.push(Failure { what: "PlainMonthDay parser panicked".into(), input: g.text.clone(), expected: format!("accept={ok}"), observed: "panic".into() }),
+                    Ok(Ok(md)) => {
+                        let got = (md.iso_year() as i64, md.iso_month() as i64, md.iso_day() as i64);
+                        if !ok || got != (1972, g.mo, g.d) { fails.push(Failure { what: "PlainMonthDay (full string) value/verdict".into(), input: g.text.clone(), expected: format!("accept={ok} {:?}", (1972, g.mo, g.d)), observed: format!("{got:?}") }); }
+                    }
+                    Ok(Err(_)) => if ok { fails.push(Failure { what: "PlainMonthDay (full date-time string) rejected".into(), input: g.text.clone(), expected: format!("{:?}", (1972, g.mo, g.d)), observed: "Err".into() }); },
+                }
+            }
             let in_date_range = { let n = oracle::days_from_civil(g.y, g.mo, g.d); n >= oracle::MIN_DAY + 1 && n <= oracle::MAX_DAY };
             let t = g.text.clone();
             if let Ok(r) = catch_unwind(move || PlainDate::from_str(&t)) {
